@@ -81,8 +81,7 @@ theorem tok_vs_ext (b X x S : Bytes) (hb : ArgOK b) (hx : NonZero x) (hxl : 0 < 
     rw [le64_get7 _ hb.1] at h7
     exact ext_nf8_get7 x S hx hn h7.symm
 
-def allLangs : List Lang := [.c, .cxx, .genericHeader, .cHeader, .cxxHeader, .objc, .objcxx, .objcxxHeader, .cuda, .cudaFE, .ptx, .cubin, .rust, .hip]
-
+-- `allLangs` is generated (Gen/KeyConsts.lean)
 theorem mem_allLangs (l : Lang) : l ∈ allLangs := by cases l <;> simp [allLangs]
 
 /-- two tags are equal, or one extends the other by a listed extension, or they differ at a byte both have -/
@@ -139,9 +138,10 @@ theorem stream_vs_ext (x : Bytes) (hxm : x ∈ tagExtensions)
 
 /-- C02 `encHash_lang_sep`: equal pre-images have equal language tags, provided the payloads do not begin
     with one of the six tag extensions -/
-theorem encHash_lang_sep : EncHashLangSep := by
-  intro r1 r2 w1 w2 hext h
-  simp only [encHash, List.append_assoc] at h
+theorem encGen_lang_sep (ver : Bytes) (allow : List Bytes) (r1 r2 : CReq) (w1 : WF r1) (w2 : WF r2)
+    (hext : ∀ x ∈ tagExtensions, ¬ (x <+: r1.pp) ∧ ¬ (x <+: r2.pp))
+    (h : encGen ver allow r1 = encGen ver allow r2) : langTagBytes r1.lang = langTagBytes r2.lang := by
+  simp only [encGen, List.append_assoc] at h
   have hd : r1.digest = r2.digest := by
     have := congrArg (List.take 64) h
     rwa [List.take_left' w1.digest.1, List.take_left' w2.digest.1] at this
@@ -151,10 +151,10 @@ theorem encHash_lang_sep : EncHashLangSep := by
   rw [List.append_cancel_left_eq] at h
   rw [encEnv_eq, encEnv_eq] at h
   -- h : tag1 ++ (args1 ++ (extra1 ++ (env1 ++ pp1))) = tag2 ++ …
-  have hS : ∀ r : CReq, r.args.flatMap encArg ++ (r.extra.flatten ++ ((canonEnv r).flatMap envTok ++ r.pp)) =
-      streamOf r.args r.extra (canonEnv r) r.pp := by intro r; simp [streamOf, tail3, List.append_assoc]
+  have hS : ∀ r : CReq, r.args.flatMap encArg ++ (r.extra.flatten ++ ((canonEnvG allow r).flatMap envTok ++ r.pp)) =
+      streamOf r.args r.extra (canonEnvG allow r) r.pp := by intro r; simp [streamOf, tail3, List.append_assoc]
   rw [hS r1, hS r2] at h
-  have envOK : ∀ (r : CReq), WF r → ∀ kv ∈ canonEnv r, EnvOK kv := by
+  have envOK : ∀ (r : CReq), WF r → ∀ kv ∈ canonEnvG allow r, EnvOK kv := by
     intro r w kv hkv
     have hm : kv ∈ r.env := (List.mem_filter.mp hkv).1
     obtain ⟨x1, x2, x3, x4⟩ := w.env kv hm
@@ -167,16 +167,21 @@ theorem encHash_lang_sep : EncHashLangSep := by
     exfalso
     have hx2' : langTagBytes r2.lang = langTagBytes r1.lang ++ x := by simpa using hx2
     rw [hx2', List.append_assoc, List.append_cancel_left_eq] at h
-    exact stream_vs_ext x hx r1.args r1.extra (canonEnv r1) r1.pp r2.args r2.extra (canonEnv r2) r2.pp
+    exact stream_vs_ext x hx r1.args r1.extra (canonEnvG allow r1) r1.pp r2.args r2.extra (canonEnvG allow r2) r2.pp
       w1.args w1.extra (envOK r1 w1) w2.args w2.extra (envOK r2 w2) ⟨w2.ppNul, w2.ppHex⟩ (hext x hx).1 h
   · exfalso
     have hx1' : langTagBytes r1.lang = langTagBytes r2.lang ++ x := by simpa using hx1
     rw [hx1', List.append_assoc, List.append_cancel_left_eq] at h
-    exact stream_vs_ext x hx r2.args r2.extra (canonEnv r2) r2.pp r1.args r1.extra (canonEnv r1) r1.pp
+    exact stream_vs_ext x hx r2.args r2.extra (canonEnvG allow r2) r2.pp r1.args r1.extra (canonEnvG allow r1) r1.pp
       w2.args w2.extra (envOK r2 w2) w1.args w1.extra (envOK r1 w1) ⟨w1.ppNul, w1.ppHex⟩ (hext x hx).2 h.symm
   · exfalso
     have hi' := List.mem_range.mp hi
     exact mismatch_ne _ _ _ _ i (by omega) (by omega) (by simpa using hne) h
+
+/-- C02 `encHash_lang_sep` -/
+theorem encHash_lang_sep : EncHashLangSep := by
+  intro r1 r2 w1 w2 hext h
+  exact encGen_lang_sep cCacheVersion cCachedEnv r1 r2 w1 w2 hext h
 
 #print axioms encHash_lang_sep
 
